@@ -79,41 +79,41 @@ Print Assumptions C15_source_ba_memcmp.
    length up to INT_MAX-1 (strings) / INT_MAX (byte arrays) and every oracle k: on success the result
    points at a fresh block holding the stated length, then exactly the bytes, then (strings) the
    terminating NUL; nothing that existed before is changed. *)
-Theorem C15_source_str_create_len : forall sx q n m k, 0 <= n -> n + 1 <= int_max -> 0 <= q -> q + n <= zlen m ->
+Theorem C15_source_str_create_len : forall sx hc q n m k, 0 <= n -> n + 1 <= int_max -> 0 <= q -> q + n <= zlen m ->
   exists f0, forall f, (f0 <= f)%nat -> exists fin,
-    callH prog_env f prog_sbdf_str_create_len [VPtr RIn q; VInt n] m k sx =
+    callC prog_env f prog_sbdf_str_create_len [VPtr RIn q; VInt n] m k sx hc =
       OReturn (if k =? 0 then VNull else VPtr RIn (zlen m + 4)) fin /\
     inb fin = (if k =? 0 then m else str_mem m (firstn (Z.to_nat n) (skipn (Z.to_nat q) m)) []).
 Proof. exact str_create_len_source. Qed.
 Print Assumptions C15_source_str_create_len.
 
-Theorem C15_source_str_create : forall sx pre bytes post k, Forall (fun b => b <> 0) bytes -> zlen bytes + 1 <= int_max ->
+Theorem C15_source_str_create : forall sx hc pre bytes post k, Forall (fun b => b <> 0) bytes -> zlen bytes + 1 <= int_max ->
   let m := pre ++ bytes ++ 0 :: post in
   exists f0, forall f, (f0 <= f)%nat -> exists fin,
-    callH prog_env f prog_sbdf_str_create [VPtr RIn (zlen pre)] m k sx = OReturn (if k =? 0 then VNull else VPtr RIn (zlen m + 4)) fin /\
+    callC prog_env f prog_sbdf_str_create [VPtr RIn (zlen pre)] m k sx hc = OReturn (if k =? 0 then VNull else VPtr RIn (zlen m + 4)) fin /\
     inb fin = (if k =? 0 then m else str_mem m bytes []).
 Proof. exact str_create_source. Qed.
 Print Assumptions C15_source_str_create.
 
-Theorem C15_source_str_copy : forall sx pre bytes post k, zlen bytes + 1 <= int_max ->
+Theorem C15_source_str_copy : forall sx hc pre bytes post k, zlen bytes + 1 <= int_max ->
   let m := str_mem pre bytes post in
   exists f0, forall f, (f0 <= f)%nat -> exists fin,
-    callH prog_env f prog_sbdf_str_copy [VPtr RIn (zlen pre + 4)] m k sx = OReturn (if k =? 0 then VNull else VPtr RIn (zlen m + 4)) fin /\
+    callC prog_env f prog_sbdf_str_copy [VPtr RIn (zlen pre + 4)] m k sx hc = OReturn (if k =? 0 then VNull else VPtr RIn (zlen m + 4)) fin /\
     inb fin = (if k =? 0 then m else str_mem m bytes []).
 Proof. exact str_copy_source. Qed.
 Print Assumptions C15_source_str_copy.
 
-Theorem C15_source_ba_create : forall sx q n m k, 0 <= n -> n <= int_max -> 0 <= q -> q + n <= zlen m ->
+Theorem C15_source_ba_create : forall sx hc q n m k, 0 <= n -> n <= int_max -> 0 <= q -> q + n <= zlen m ->
   exists f0, forall f, (f0 <= f)%nat -> exists fin,
-    callH prog_env f prog_sbdf_ba_create [VPtr RIn q; VInt n] m k sx = OReturn (if k =? 0 then VNull else VPtr RIn (zlen m + 4)) fin /\
+    callC prog_env f prog_sbdf_ba_create [VPtr RIn q; VInt n] m k sx hc = OReturn (if k =? 0 then VNull else VPtr RIn (zlen m + 4)) fin /\
     inb fin = (if k =? 0 then m else ba_mem m (firstn (Z.to_nat n) (skipn (Z.to_nat q) m)) []).
 Proof. exact ba_create_source. Qed.
 Print Assumptions C15_source_ba_create.
 
-Theorem C15_source_copy_array : forall sx pre payload post k, zlen payload <= int_max ->
+Theorem C15_source_copy_array : forall sx hc pre payload post k, zlen payload <= int_max ->
   let m := pre ++ le32 (zlen payload) ++ payload ++ post in
   exists f0, forall f, (f0 <= f)%nat -> exists fin,
-    callH prog_env f prog_sbdf_copy_array [VPtr RIn (zlen pre + 4)] m k sx = OReturn (if k =? 0 then VNull else VPtr RIn (zlen m + 4)) fin /\
+    callC prog_env f prog_sbdf_copy_array [VPtr RIn (zlen pre + 4)] m k sx hc = OReturn (if k =? 0 then VNull else VPtr RIn (zlen m + 4)) fin /\
     inb fin = (if k =? 0 then m else ba_mem m payload []).
 Proof. exact copy_array_source. Qed.
 Print Assumptions C15_source_copy_array.
